@@ -171,6 +171,23 @@ def r2_to_r6_reapers(ctx, only=None):
                        "the count compared with min_idle is not built from open, kept sessions only (definition `%s`%s): dead or to-be-removed entries count towards the minimum, so the reaper can close the last live idle session" %
                        (fmt(t)[:80] if t else body.term_str(bi)[:80], "" if guarded else ", not dominated by is_closed()==false and a keep decision"))
             ctx.floor("R12.2", "%s: increments of active_count" % name, incs, 2)
+            # every pass over the map starts its count afresh (the periodic reaper runs one pass per tick, for ever)
+            resets = [bi for kind, bi, si, payload in defs if kind == "assign" and payload["r"] == "use" and payload["op"]["o"] == "const"]
+            passes = [c for c in calls_norm(body, "BTreeMap::iter", "BTreeMap::keys", "BTreeMap::values", "BTreeMap::iter_mut", "BTreeMap::range")]
+            if resets and passes:
+                okr = True
+                pth = None
+                for pc in passes:
+                    if cfg.in_cycle(pc.bb):
+                        okp, pth_ = cfg.must_pass(cfg.succ(pc.bb), [pc.bb], via_blocks=resets)
+                        if not okp:
+                            okr, pth = False, pth_
+                ctx.ob("R12.2", "%s:kept-count-restarts-with-every-pass" % name, okr, "src/client/session_pool.rs:%s" % body.blocks[resets[0]]["tspan"]["line"],
+                       "the count is set to its initial constant before every pass over the idle map" if okr else
+                       "the count compared with min_idle is initialised once, outside the per-tick pass: it accumulates over ticks, so after a tick or two `count < min_idle` is never true again and the reaper closes "
+                       "the sessions it is meant to keep as idle minimum (a sole pooled session is closed at its first expiry)", path=None if okr else render_path(body, pth))
+            else:
+                ctx.missing("R12.2", "%s: initialisation of the kept count / pass over the idle map" % name)
         # every close(): on the entry removed from the map under a key from the removal list
         closes = calls_norm(body, "Session::close")
         must = Held(body, must=True)
@@ -268,5 +285,6 @@ def run(ctx):
     r7_reaper_cannot_die(ctx)
     r1_entry_points(ctx)
     r2_to_r6_reapers(ctx)
-    from . import C13
+    from . import C13, C09
+    C09.r4_close_body(ctx)   # close() raises the closed flag before it starts tearing the session down: is_closed(), which both the reuse path and the reaper rely on, is true for a dying session
     C13.r4_pool_keys(ctx)    # one key per session: a colliding key silently evicts (drops, never closes) a healthy pooled session
